@@ -914,7 +914,7 @@ func setupRegister(env *object.Environment, name string, value int64, body ast.N
 	return register, newBody, ok
 }
 
-func (s *State) evalForInteger(fe *ast.ForExpression, start *int64, end int64, name string) object.Object {
+func (s *State) evalForInteger(fe *ast.ForExpression, start *int64, end int64, name string, loopReg *object.Register) object.Object {
 	var lastEval object.Object
 	lastEval = object.NULL
 	startValue := 0
@@ -930,12 +930,17 @@ func (s *State) evalForInteger(fe *ast.ForExpression, start *int64, end int64, n
 	var newBody ast.Node
 	var register object.Register
 	newBody = fe.Body
-	if name != "" && !s.NoReg && s.env.HasRegisters() {
+	ownReg := false
+	if loopReg != nil {
+		ptr = loopReg.Ptr() // the body already refers to that register.
+	} else if name != "" && !s.NoReg && s.env.HasRegisters() {
+		ownReg = true
 		var ok bool
 		register, newBody, ok = setupRegister(s.env, name, int64(startValue), fe.Body)
 		if ok {
 			ptr = register.Ptr()
 		} else {
+			ownReg = false
 			// The body can't use a register (closure over the loop variable, i++...): use a plain variable,
 			// like when registers are off.
 			s.env.ReleaseRegister(register)
@@ -971,7 +976,7 @@ func (s *State) evalForInteger(fe *ast.ForExpression, start *int64, end int64, n
 		}
 	}
 	// Release on every way out of the loop (break, return, error included).
-	if ptr != nil {
+	if ownReg {
 		last := *ptr
 		s.env.ReleaseRegister(register)
 		if endValue > startValue {
@@ -993,7 +998,9 @@ func (s *State) evalForSpecialForms(fe *ast.ForExpression) (object.Object, bool)
 	if ie.Token.Type() != token.ASSIGN && ie.Token.Type() != token.DEFINE {
 		return object.NULL, false
 	}
-	if ie.Left.Value().Type() != token.IDENT {
+	// The loop variable can be an integer parameter that is already in a register.
+	loopReg, _ := ie.Left.(*object.Register)
+	if ie.Left.Value().Type() != token.IDENT && loopReg == nil {
 		return s.Errorf("for var = ... not a var %s", ie.Left.Value().DebugString()), true
 	}
 	name := ie.Left.Value().Literal()
@@ -1008,15 +1015,13 @@ func (s *State) evalForSpecialForms(fe *ast.ForExpression) (object.Object, bool)
 		if !ok {
 			return s.NewError("for var = n:m m not an integer: " + end.Inspect()), true
 		}
-		return s.evalForInteger(fe, &startInt, endInt, name), true
+		return s.evalForInteger(fe, &startInt, endInt, name, loopReg), true
 	}
-	// Evaluate:
-	v := s.evalInternal(ie.Right)
+	// Evaluate (and dereference: the bound can be a reference to an outer variable).
+	v := object.Value(s.evalInternal(ie.Right))
 	switch v.Type() {
-	case object.REGISTER:
-		return s.evalForInteger(fe, nil, v.(*object.Register).Int64(), name), true
 	case object.INTEGER:
-		return s.evalForInteger(fe, nil, v.(object.Integer).Value, name), true
+		return s.evalForInteger(fe, nil, v.(object.Integer).Value, name, loopReg), true
 	case object.ERROR:
 		return v, true
 	case object.ARRAY, object.MAP, object.STRING:
@@ -1089,9 +1094,9 @@ func (s *State) evalForExpression(fe *ast.ForExpression) object.Object {
 			case object.ERROR:
 				return condition
 			case object.REGISTER:
-				return s.evalForInteger(fe, nil, condition.(*object.Register).Int64(), "")
+				return s.evalForInteger(fe, nil, condition.(*object.Register).Int64(), "", nil)
 			case object.INTEGER:
-				return s.evalForInteger(fe, nil, condition.(object.Integer).Value, "")
+				return s.evalForInteger(fe, nil, condition.(object.Integer).Value, "", nil)
 			default:
 				return s.NewError("for condition is not a boolean nor integer nor assignment: " + condition.Inspect())
 			}
